@@ -1,6 +1,8 @@
 //! `cvh <property> --tier quick|thorough [--seed N] [--widen] [--replay file]`
 //! Prints one JSON report on the last line of stdout.
+mod c17;
 mod c25;
+mod ty;
 mod lean;
 mod report;
 mod rng;
@@ -49,6 +51,7 @@ fn main() {
         for f in v["failures"].as_array().cloned().unwrap_or_default() {
             let out = match prop {
                 "C25" => c25::replay(&f["input"]),
+                "C17" => c17::replay(&f["input"]),
                 _ => "replay not implemented for this property".to_string(),
             };
             println!("input: {}\n{}", f["input"], out);
@@ -64,6 +67,7 @@ fn main() {
     }
     let rep = match prop {
         "C25" => c25::run(&tier, seed, widen),
+        "C17" => c17::run(&tier, seed, widen),
         _ => {
             eprintln!("unknown property {prop}");
             std::process::exit(2);
